@@ -118,6 +118,17 @@ def check_molecule(m0, tag, stereo=False, seed=0, n_renumber=2, rdkit_smiles=Non
     in_orders = G.orders(m0)
     had_aromatic = any(o == 4 for o in in_orders.values())
     allowed, rule_hit = rule_atoms(m0.copy())
+    four = G.has_unsaturated_four_ring(m0)
+    gap = getattr(c01, 'gap', None)
+
+    def uniqueness(contract, what):
+        """clauses that presuppose one aromatic form per molecule: for ring systems with an unsaturated four-membered ring the property
+        records that Kekule forms may aromatise differently (biphenylene-type gap) - counted as gap hit, never a violation"""
+        if four:
+            if gap is not None:
+                gap.append((contract, tag))
+        else:
+            bad.append((contract, what))
 
     # ---- K
     k = m0.copy()
@@ -207,12 +218,11 @@ def check_molecule(m0, tag, stereo=False, seed=0, n_renumber=2, rdkit_smiles=Non
         bad += pb
         b.thiele()
         if not same(b, a, stereo, c01):
-            bad.append(('C-cycle-stable', f'{tag}: thiele(kekule(thiele(m))) = {canon(b, stereo)} != thiele(m) = {sa}'))
+            uniqueness('C-cycle-stable', f'{tag}: thiele(kekule(thiele(m))) = {canon(b, stereo)} != thiele(m) = {sa}')
     except InvalidAromaticRing as e:
         bad.append(('C-cycle-rejected', f'{tag}: kekule() of the aromatic form {sa} raises InvalidAromaticRing: {e}'))
 
     # ---- E (inputs whose every atom has a hydrogen count: the aromatic normal form, and the input itself when it qualifies)
-    four = G.has_unsaturated_four_ring(m0)
     sources = [('normal form', a, at)]
     if had_aromatic and all(h is not None for h in ref[4].values()):
         sources.append(('input', m0, ref))
@@ -262,7 +272,7 @@ def check_molecule(m0, tag, stereo=False, seed=0, n_renumber=2, rdkit_smiles=Non
         inv = {v: k_ for k_, v in mp.items()}
         c.remap(inv)
         if not same(c, a, stereo, c01):
-            bad.append(('N-numbering', f'{tag}: renumbered copy {mp} normalises to {canon(c, stereo)}, original to {sa}'))
+            uniqueness('N-numbering', f'{tag}: renumbered copy {mp} normalises to {canon(c, stereo)}, original to {sa}')
             break
     return bad, (sa, a), has_ring
 
@@ -274,12 +284,17 @@ def check_smiles(s, stereo=False, rdkit=True, c01=None):
     return check_molecule(m0, s, stereo=stereo, seed=env.SEED, rdkit_smiles=s if rdkit else None, c01=c01)
 
 
+class _Side(list):
+    gap = None
+
+
 class _Acc:
     def __init__(self):
         self.n = 0
         self.keys, self.samples, self.viol = [], [], []
         self.stats = Counter()
-        self.c01 = []
+        self.c01 = _Side()
+        self.c01.gap = []
 
     def one(self, tag, wit, fn, sample=None):
         """run fn(c01 list) -> check_molecule result; book-keeping; returns (canonical string, molecule) or None"""
@@ -307,25 +322,31 @@ class _Acc:
     def result(self):
         if self.c01:
             self.stats['canonical_string_differs_for_isomorphic_molecules(C01)'] += len(self.c01)
-        return self.n, self.keys, self.samples, self.viol, dict(self.stats), self.c01[:3]
+        for c, _ in self.c01.gap:
+            self.stats[f'gap_hits_unsaturated_four_ring.{c}'] += 1
+        return self.n, self.keys, self.samples, self.viol, dict(self.stats), list(self.c01[:3])
 
 
 def w_generated(chunk):
     _setup()
     acc = _Acc()
-    for name, pat, aro, kek in chunk:
+    for name, pat, aro, kek, fam in chunk:
         res = {}
         for label, s in (('aromatic', aro), ('kekule', kek)):
             if s is None:
                 continue
-            wit = {'kind': 'smiles', 'smiles': s, 'template': name, 'pattern': pat, 'spelling': label}
+            wit = {'kind': 'smiles', 'smiles': s, 'template': name, 'family': fam, 'pattern': pat, 'spelling': label}
             res[label] = acc.one(s, wit, lambda c01, s=s: check_smiles(s, c01=c01), {'template': name})
         if len(res) == 2 and None not in res.values() and not same(res['aromatic'][1], res['kekule'][1], False, acc.c01):
+            from oracles import o05_graph as G
+            if G.has_unsaturated_four_ring(res['kekule'][1]):
+                acc.c01.gap.append(('S-spelling', aro))
+                continue
             acc.stats['violations'] += 1
             if len(acc.viol) < MAXV:
                 acc.viol.append((f'S-spelling:{aro}', f'{name} [{pat}]: aromatic spelling {aro} normalises to {res["aromatic"][0]}, '
                                  f'Kekule spelling {kek} to {res["kekule"][0]}',
-                                 {'kind': 'pair', 'aromatic': aro, 'kekule': kek, 'template': name}, [res['aromatic'][0], res['kekule'][0]]))
+                                 {'kind': 'pair', 'aromatic': aro, 'kekule': kek, 'template': name, 'family': fam}, [res['aromatic'][0], res['kekule'][0]]))
     return acc.result()
 
 
@@ -375,7 +396,7 @@ def bounded(run):
             for key, what, wit, native in viol:
                 contract = key.split(':', 1)[0]
                 vcount[contract] += 1
-                fam = (contract, wit.get('template') or key)
+                fam = (contract, wit.get('family') or key)
                 families.setdefault(fam, []).append((key, what, wit, native))
 
     def report():
@@ -383,7 +404,7 @@ def bounded(run):
         for fam, lst in sorted(families.items()):
             lst.sort(key=lambda x: (len(x[0]), x[0]))
             key, what, wit, native = lst[0]
-            more = f' [+{len(lst) - 1} further inputs of template {fam[1]} violate the same contract]' if len(lst) > 1 else ''
+            more = f' [+{len(lst) - 1} further inputs of the template family {fam[1]} violate the same contract]' if len(lst) > 1 else ''
             run.violation(key, what + more, witness=wit, native=native)
 
     gen = list(D.generate(domains.rnd('c05-gen'), n_random=6 if thorough else 3, pairs=thorough))
@@ -422,7 +443,15 @@ def bounded(run):
                'RDKit 2026.03 kekulisation of the same aromatic SMILES is trusted for per-atom hydrogen counts / charges where RDKit accepts the input (one-directional)',
                'hydrogen re-derivation from the element tables: oracles/o04_valence.py (see C04)',
                'the clause "all enumerated Kekule forms aromatise identically" is skipped for inputs with an unsaturated four-membered ring '
-               '(own detection on the input graph: a 4-cycle with an atom bearing a double/triple/aromatic bond) - recorded gap of the property')
+               '(own detection on the input graph: a 4-cycle with an atom bearing a double/triple/aromatic bond) - recorded gap of the property; '
+               'the clauses that follow from it (numbering independence, spelling independence, stability of the thiele-kekule-thiele cycle) are '
+               'evaluated there too but differences are only counted as gap_hits_unsaturated_four_ring',
+               'the enumerated-forms clauses are evaluated on inputs whose every atom has a hydrogen count (the aromatic normal form after kekule(); thiele(), '
+               'and the input itself when it qualifies): straight after parsing, aromatic heteroatoms written without H have no count and the library '
+               'documents them as pyrrole-or-pyridine ambiguous',
+               'kekule() may reject an input (InvalidAromaticRing) - counted; it is a violation only where RDKit kekulises the same SMILES text',
+               'one violation is reported per (contract, template family) with the minimal witness (shortest, then smallest key); further witnesses of the '
+               'family are counted in the message')
     run.notes['c05_bounded_stats'] = dict(stats)
     run.notes['c05_violations_per_contract'] = dict(vcount)
     run.notes['c05_isomorphic_but_different_canonical_strings(C01 matter, not counted here)'] = c01_samples[:6]
